@@ -3,7 +3,7 @@
  "name": "jbd2_journal_recover",
  "props": ["C03", "C04"],
  "level": "P",
- "tier": "wip",
+ "tier": "quick",
  "harness": "h_recover",
  "enforce": ["jbd2_journal_recover"],
  "replace": ["do_one_pass"],
@@ -20,7 +20,7 @@
  "name": "jbd2_journal_recover_debugfs",
  "props": ["C03", "C04"],
  "level": "P",
- "tier": "wip",
+ "tier": "quick",
  "harness": "h_recover",
  "enforce": ["jbd2_journal_recover"],
  "replace": ["do_one_pass"],
@@ -36,7 +36,7 @@
  "name": "jbd2_journal_skip_recovery",
  "props": ["C03"],
  "level": "P",
- "tier": "wip",
+ "tier": "quick",
  "harness": "h_skip",
  "enforce": ["jbd2_journal_skip_recovery"],
  "replace": ["do_one_pass"],
